@@ -2,6 +2,7 @@ import RV.C15.Lemmas
 import RV.C15.LemmasStore
 import RV.C15.LemmasAlg
 import RV.C15.LemmasInit2
+import RV.C15.LemmasTD2
 /-
   C15 — property theorems (statements first, as `def Statement_… : Prop`, then the proofs).
 
@@ -290,6 +291,93 @@ theorem aggregate_without_skip_duplicates :
     (aggTriples [graphStore g1, graphStore g2] (none, none, none)).length = 2 := by
   decide
 
+/-! ## 6. the evaluator as rdflib runs it (top-down, bindings pushed into the operand evaluated next):
+       BGP order and variable names through OPTIONAL, MINUS, GRAPH, VALUES, BIND, FILTER, lazy and non-lazy joins -/
+
+/-- every graph an evaluation can reach answers `triples(pattern)` with each matching triple once -/
+def DSet.AllExactlyOnce (ds : DSet) : Prop :=
+  (∃ d, ExactlyOnce ds.dflt d) ∧ ∀ x ∈ ds.named, ∃ d, ExactlyOnce x.2 d
+
+/-- Permuting the triple patterns of any BGPs anywhere in the algebra tree — under OPTIONAL (left or right side),
+    MINUS (either side), GRAPH, BIND, FILTER, UNION, lazy or non-lazy joins — leaves the bag of `evalPart` alone, in
+    every context (current graph `g`, pushed bindings `μ`, initBindings `init`), hence for the SELECT query. -/
+def Statement_td_bgp_reorder : Prop :=
+  ∀ (n : Nat) (ds : DSet) (init : Row n) (q q' : P n), ds.AllExactlyOnce → RwB q q' →
+    (∀ (g : Store) (μ : Row n), (∃ d, ExactlyOnce g d) → (evalTD ds init q g μ).Perm (evalTD ds init q' g μ)) ∧
+    (∀ pv, (evalSelectTD ds init pv q).Perm (evalSelectTD ds init pv q'))
+
+/-- What rdflib runs — `reorderTriples` on every BGP at translation, the dynamic sort at each `evalPart` — equals
+    the query with its BGPs in any written order, whatever the (abstract) tie-break order of terms. -/
+def Statement_td_plan_order_irrelevant : Prop :=
+  ∀ (n : Nat) (isLit : Term → Bool) (tle : TP n → TP n → Bool) (ds : DSet) (init : Row n) (pv : List (Fin n))
+    (q q' : P n), ds.AllExactlyOnce → RwB q q' →
+    (evalSelectTD ds init pv (q.reorder isLit tle)).Perm (evalSelectTD ds init pv q')
+
+/-- Consistent renaming of the variables (any injective `ρ`; the query, its projection, the initBindings and the
+    pushed bindings renamed together): the answers are the renamed answers, as lists — through every operator. -/
+def Statement_td_rename_equivariant : Prop :=
+  ∀ (n m : Nat) (ρ : Ren n m) (ds : DSet) (init : Row n) (q : P n),
+    (∀ (g : Store) (μ : Row n), evalTD ds (ρ.push init) (ρ.p q) g (ρ.push μ) = (evalTD ds init q g μ).map ρ.push) ∧
+    (∀ pv, evalSelectTD ds (ρ.push init) (pv.map ρ.f) (ρ.p q) = (evalSelectTD ds init pv q).map ρ.push)
+
+def Statement_td_union_swap : Prop :=
+  ∀ (n : Nat) (ds : DSet) (init : Row n) (a b : P n) (g : Store) (μ : Row n),
+    (evalTD ds init (.union a b) g μ).Perm (evalTD ds init (.union b a) g μ)
+
+/-- Swapping the operands of a join — at full strength, for the evaluator as it runs.  FALSE for rdflib (known
+    findings C15-K3 / K7 / K8: `_vars` is an upper bound used as if exact): see `td_join_swap_witness`; what holds is
+    `td_join_swap_partial` (joins that are not evaluated lazily) and, on the bottom-up algebra, `model_rewrite_invariant`. -/
+def Statement_td_join_swap : Prop :=
+  ∀ (n : Nat) (ds : DSet) (init : Row n) (a b : P n) (g : Store) (μ : Row n),
+    (evalTD ds init (.join a b) g μ).Perm (evalTD ds init (.join b a) g μ)
+
+theorem td_bgp_reorder : Statement_td_bgp_reorder := by
+  intro n ds init q q' hds h
+  have hgood : ds.Good := fun x hx => by
+    obtain ⟨d, hd⟩ := hds.2 x hx
+    exact ⟨_, exactlyOnce_graphLike hd⟩
+  refine ⟨fun g μ hg => ?_, fun pv => ?_⟩
+  · obtain ⟨d, hd⟩ := hg
+    exact evalTD_rwB ds hgood init h g μ ⟨_, exactlyOnce_graphLike hd⟩
+  · obtain ⟨d, hd⟩ := hds.1
+    exact (evalTD_rwB ds hgood init h ds.dflt init ⟨_, exactlyOnce_graphLike hd⟩).map _
+
+theorem td_plan_order_irrelevant : Statement_td_plan_order_irrelevant := fun n isLit tle ds init pv q _ hds h =>
+  ((td_bgp_reorder n ds init _ _ hds (RwB.reorder isLit tle q)).2 pv).symm.trans
+    ((td_bgp_reorder n ds init _ _ hds h).2 pv)
+
+theorem td_rename_equivariant : Statement_td_rename_equivariant := by
+  intro n m ρ ds init q
+  refine ⟨ρ.evalTD_push ds init q, fun pv => ?_⟩
+  have h := ρ.evalTD_push ds init q ds.dflt init
+  simp only [evalSelectTD, h, List.map_map]
+  congr 1
+  funext μ
+  exact ρ.project_push pv μ
+
+theorem td_union_swap : Statement_td_union_swap := fun _ _ _ _ _ _ _ => List.perm_append_comm
+
+/-- a join that is not evaluated lazily (an operand contains a join) is `_join` of the two bags: commutative -/
+theorem td_join_swap_partial :
+    ∀ (n : Nat) (ds : DSet) (init : Row n) (a b : P n) (g : Store) (μ : Row n), (a.noJoin && b.noJoin) = false →
+      (evalTD ds init (.join a b) g μ).Perm (evalTD ds init (.join b a) g μ) := by
+  intro n ds init a b g μ h
+  have h' : (b.noJoin && a.noJoin) = false := by rw [Bool.and_comm]; exact h
+  simp only [evalTD, h, h']
+  exact joinBag_comm _ _
+
+/-- `{ ?x p ?y } { OPTIONAL { ?x q ?z } FILTER(bound(?x)) }` over one `p` triple: the lazy join pushes `?x` into the
+    right group, whose filter keeps it (it is in `_vars` of the OPTIONAL, which did not match): 1 solution; with the
+    operands swapped the group is evaluated first, `?x` is unbound: 0 solutions. -/
+theorem td_join_swap_witness : ¬ Statement_td_join_swap := by
+  intro h
+  have := (h 3 { dflt := graphStore [(1, 10, 2)], named := [] } Row.empty
+    (.bgp [(.var 0, .const 10, .var 1)])
+    (.filter (.bound 0) (.leftJoin (.bgp []) (.bgp [(.var 0, .const 11, .var 2)]) none))
+    (graphStore [(1, 10, 2)]) Row.empty).length_eq
+  revert this
+  decide
+
 /-! ## non-vacuity: the hypotheses are met by concrete, non-trivial instances -/
 
 example : ExactlyOnce (graphStore [(1, 2, 3), (4, 2, 3), (3, 2, 1)]) [(1, 2, 3), (4, 2, 3), (3, 2, 1)] :=
@@ -344,5 +432,25 @@ example :
     let r := runMany (QS.ofQ q) [graphStore [(1, 2, 3), (4, 2, 3)], graphStore [(4, 2, 3)], graphStore [(1, 2, 3), (4, 2, 3)]]
     r.1.map showRows = [[[some 1, some 3]], [], [[some 1, some 3]]] ∧ r.2.clean = true := by
   decide
+
+/-- a data set with a named graph meets `AllExactlyOnce`; an OPTIONAL + MINUS + GRAPH query over it has answers, and
+    the same answers with the patterns of its BGP swapped -/
+example :
+    let ds : DSet := { dflt := graphStore [(1, 10, 2), (3, 10, 2), (3, 11, 4)], named := [(7, graphStore [(1, 10, 2)])] }
+    let q : P 3 := .minus (.leftJoin (.bgp [(.var 0, .const 10, .var 1), (.var 0, .const 10, .const 2)])
+                              (.bgp [(.var 0, .const 11, .var 2)]) none)
+                          (.graph (.const 7) (.bgp [(.var 0, .const 10, .var 1)]))
+    let q' : P 3 := .minus (.leftJoin (.bgp [(.var 0, .const 10, .const 2), (.var 0, .const 10, .var 1)])
+                              (.bgp [(.var 0, .const 11, .var 2)]) none)
+                          (.graph (.const 7) (.bgp [(.var 0, .const 10, .var 1)]))
+    ds.AllExactlyOnce ∧ RwB q q' ∧
+      showRows (evalSelectTD ds Row.empty [0, 1, 2] q) = [[some 3, some 2, some 4]] ∧
+      showRows (evalSelectTD ds Row.empty [0, 1, 2] q') = [[some 3, some 2, some 4]] := by
+  refine ⟨⟨⟨_, graphStore_exactlyOnce (by decide)⟩, ?_⟩, ?_, by decide, by decide⟩
+  · intro x hx
+    simp only [List.mem_singleton] at hx
+    subst hx
+    exact ⟨_, graphStore_exactlyOnce (by decide)⟩
+  · exact .minus (.leftJoin none (.bgp (List.Perm.swap _ _ _)) (.refl _)) (.refl _)
 
 end RV.C15
